@@ -28,6 +28,11 @@ pub struct Case {
     /// source blocks after the writer has been opened
     #[serde(default)]
     pub cache: Option<usize>,
+    /// foreign FDT only: how the announced Content-MD5 relates to the real digest. 0: equal; 1: the
+    /// same base64 text with the case of one letter flipped; 2: padded with a blank; 3: another digest.
+    /// With the writer's MD5 check on, 1-3 must never end in complete.
+    #[serde(default)]
+    pub md5_variant: u8,
 }
 
 fn map_idx(i: u16, len: usize) -> usize {
@@ -35,7 +40,29 @@ fn map_idx(i: u16, len: usize) -> usize {
 }
 
 /// a foreign FDT instance (no OTI attributes at all) listing the session's objects
-fn foreign_fdt_packet(ls: &LabeledSession, instance_id: u32) -> Vec<u8> {
+fn md5_text(real: &str, variant: u8) -> String {
+    match variant {
+        1 => {
+            // flip the case of the first letter (base64 is case sensitive)
+            let mut out = String::new();
+            let mut done = false;
+            for ch in real.chars() {
+                if !done && ch.is_ascii_alphabetic() {
+                    out.push(if ch.is_ascii_uppercase() { ch.to_ascii_lowercase() } else { ch.to_ascii_uppercase() });
+                    done = true;
+                } else {
+                    out.push(ch);
+                }
+            }
+            out
+        }
+        2 => format!(" {}", real),
+        3 => "AAAAAAAAAAAAAAAAAAAAAA==".to_string(),
+        _ => real.to_string(),
+    }
+}
+
+fn foreign_fdt_packet(ls: &LabeledSession, instance_id: u32, md5_variant: u8) -> Vec<u8> {
     let mut fdt = ForeignFdt::new(4_000_000_000);
     for (i, o) in ls.objs.iter().enumerate() {
         let spec = &ls.spec.objs[i];
@@ -44,7 +71,7 @@ fn foreign_fdt_packet(ls: &LabeledSession, instance_id: u32) -> Vec<u8> {
             f = f.with("Content-Encoding", ["null", "zlib", "deflate", "gzip"][spec.cenc as usize]);
         }
         if spec.md5 {
-            f = f.with("Content-MD5", super::c01::expected_md5(&o.bytes));
+            f = f.with("Content-MD5", md5_text(&super::c01::expected_md5(&o.bytes), md5_variant));
         }
         fdt = fdt.file(f);
     }
@@ -97,7 +124,7 @@ pub fn run_case(c: &Case) -> CaseResult {
     let truncated = keep < order.len();
     order.truncate(keep);
     // deliver by hand (the foreign FDT needs packet substitution)
-    let foreign = if c.foreign_fdt { Some(foreign_fdt_packet(&ls, 900)) } else { None };
+    let foreign = if c.foreign_fdt { Some(foreign_fdt_packet(&ls, 900, c.md5_variant)) } else { None };
     let rxs = RxSpec { receive_once: c.receive_once, md5_check: c.md5_check, object_max_cache_size: c.cache, ..RxSpec::default_once() };
     let mon = Monitor::new(c.md5_check, c.faults.clone());
     let mut rx = crate::drive::Rx::with_monitor(&rxs, mon.clone());
@@ -135,6 +162,16 @@ pub fn run_case(c: &Case) -> CaseResult {
             ));
         }
         if w.completed() {
+            let announced = ls.spec.objs.iter().zip(ls.objs.iter()).any(|(sp, ob)| ob.toi == w.toi && sp.md5);
+            if c.foreign_fdt && c.md5_variant != 0 && c.md5_check && announced {
+                return Err(format!(
+                    "toi {}: complete although the announced Content-MD5 ({:?}) is not the digest of the content ({:?}) and the writer asked for the check ({})",
+                    w.toi,
+                    md5_text(&super::c01::expected_md5(&o.bytes), c.md5_variant),
+                    super::c01::expected_md5(&o.bytes),
+                    w.trace()
+                ));
+            }
             if w.data != o.bytes {
                 return Err(format!("toi {}: complete after {} of {} bytes ({})", w.toi, w.data.len(), o.bytes.len(), w.trace()));
             }
@@ -149,6 +186,7 @@ pub fn run_case(c: &Case) -> CaseResult {
     info.label_if(open_before_drop > 0, "dropped with a writer open");
     info.label_if(empty, "empty object");
     info.label_if(c.foreign_fdt, "foreign FDT without OTI");
+    info.label_if(c.foreign_fdt && c.md5_variant != 0 && c.md5_check, "foreign FDT announcing a Content-MD5 that is not the digest");
     info.label_if(truncated, "history cut");
     info.label_if(c.cache.is_some() && st.writers.iter().any(|w| w.failed()), "tiny cache limit and a writer failed");
     info.label(format!("writers={}", st.writers.len().min(4)));
@@ -188,9 +226,9 @@ pub fn case_strategy() -> BoxedStrategy<Case> {
         prop_oneof![3 => Just(false), 1 => Just(true)],
         any::<bool>(),
         any::<bool>(),
-        prop_oneof![4 => Just(None), 1 => prop_oneof![Just(1usize), Just(8), Just(16), Just(32), Just(64), 1usize..200].prop_map(Some)],
+        (prop_oneof![4 => Just(None), 1 => prop_oneof![Just(1usize), Just(8), Just(16), Just(32), Just(64), 1usize..200].prop_map(Some)], prop_oneof![3 => Just(0u8), 1 => 1u8..4]),
     )
-        .prop_map(|(sess, order, faults, keep, foreign_fdt, md5_check, receive_once, cache)| Case { sess, order, faults, keep, foreign_fdt, md5_check, receive_once, cache })
+        .prop_map(|(sess, order, faults, keep, foreign_fdt, md5_check, receive_once, (cache, md5_variant))| Case { sess, order, faults, keep, foreign_fdt, md5_check, receive_once, cache, md5_variant })
         .boxed()
 }
 
